@@ -1,6 +1,7 @@
 package rules
 
 import (
+	"fmt"
 	"strings"
 
 	"golang.org/x/tools/go/ssa"
@@ -266,5 +267,44 @@ func runC10(p *core.Prog, r *core.Report) {
 	}
 	if nFr == 0 {
 		r.Fatalf("C10.R3: no length-prefix write found in the combined writer")
+	}
+	// R5 the header window of a combined entry stays inside the buffer
+	r5 := r.Rule("C10.R5", "readHeader: the end of the window read for the entry that was found (min(offset+length, offset+window)) is provably within the buffer wherever the buffer is sliced up to it: an entry can be found at any offset up to the refill threshold, so the window is re-based when it would not fit", 2)
+	windowInsideBuffer(p, r, r5)
+	r.Explain += " (R5) in readHeader every slicing of the caller's buffer whose upper bound is the found entry's window end is preceded, on every path, by facts implying bound <= cap(buffer) (the not-fitting case moves the bytes read so far to the buffer start); decided by the difference-bound engine with a case split over the incoming edges. A bound beyond the buffer is a run-time panic in ReadObject / Head / GetStream for a stored object."
+	// R4 what a reader decodes are the stored bytes (shared with C11.R7)
+	r4 := r.Rule("C10.R4", "the compressed head handed to the streaming decoder is a private copy, never a view of the caller's buffer (which the same read refills with decoded bytes while the decoder is still reading ahead): otherwise ReadObject / ReadHeader return other bytes than were stored although Get and GetBytes look healthy", 1)
+	decoderInputPrivate(p, r, r4)
+	r.Explain += " (R4, shared with C11.R7) the bytes a streaming zstd decoder starts from are a copy of the file's head, not a slice of the caller-owned buffer that is overwritten with the decoded head during the same call."
+}
+
+func windowInsideBuffer(p *core.Prog, r *core.Report, h *core.RuleH) {
+	fn := p.Func("(*pkg/local_object_storage/blobstor/fstree.FSTree).readHeader")
+	if fn == nil {
+		r.Fatalf("C10.R5: readHeader not found")
+		return
+	}
+	n := 0
+	for _, b := range fn.Blocks {
+		for _, in := range b.Instrs {
+			sl, ok := in.(*ssa.Slice)
+			if !ok || sl.High == nil || core.ParamIndex(fn, sl.X) < 0 {
+				continue
+			}
+			c, isC := sl.High.(*ssa.Call)
+			if !isC {
+				continue
+			}
+			if bi, isB := c.Call.Value.(*ssa.Builtin); !isB || bi.Name() != "min" {
+				continue
+			}
+			n++
+			oc := core.NewOrderCtx(in)
+			h.Check(oc.ProveLEKey(sl.High, oc.CapKey(sl.X), 0), core.FuncName(fn)+"#window-end@"+fmt.Sprint(n), p.InstrPos(in), "window end <= cap(buffer) ("+oc.Facts()+")",
+				"nothing on the paths to this slicing bounds the found entry's window end by the buffer ("+oc.Facts()+"): an entry found at an offset above one window (the buffer is refilled only when less than an entry prefix is left) makes the slice end behind the buffer and the read of a stored object panics")
+		}
+	}
+	if n == 0 {
+		h.Bad(core.FuncName(fn)+"#window-end", p.Pos(fn.Pos()), "no slicing of the buffer up to the entry's window end found")
 	}
 }
